@@ -10,10 +10,10 @@ CHECKS = {
          "Runs the real SearchAlgorithm entry points on sampled networks and queries and checks every returned route (contiguity, endpoints, no repeated edge, non-empty) and every returned tree (edge joins parent to child in search direction, parents lead to the root without revisits) against the generator's own edge list.",
          "generator's RefNet is the source of truth; edge-oriented endpoint clause read in its weakest form; reverse x edge/ksp not driven (undefined in the code)", "3.1"),
  "C02": (True, "runtime oracle: real Dijkstra/A* vs reference Dijkstra over independently computed per-edge costs; pop-order invariant via hook events",
-         "Runs real Dijkstra and A* (weight factor <= 1 on metric networks) on sampled networks, unit combinations, weights, rates and surcharges; the route cost must equal a reference shortest-path cost computed from the generator's own weights/rates, both algorithms must agree, and Dijkstra pops must be monotone (Pop hook events).",
-         "per-edge state change measured by one real traverse_edge; state-dependent worlds skipped (precondition); 1e-9 tolerance; app-level override slice in the application monitors", "3.2"),
+         "Runs real Dijkstra and A* (weight factor <= 1 on metric networks) on sampled networks, unit combinations, weights, rates and surcharges; the route cost must equal a reference shortest-path cost computed from the generator's own weights/rates, both algorithms must agree, and Dijkstra pops must be monotone (Pop hook events). One case in 80 goes through CompassApp::run: the objective sits in the TOML only, or a decoy objective sits in the TOML and the real one (weights / vehicle_rates / cost_aggregation, all or one, and a weight_factor correcting an inadmissible configured one) comes with the query; the same reference decides on the json route.",
+         "per-edge state change measured by one real traverse_edge; state-dependent worlds skipped (precondition); 1e-9 tolerance; application slice: per-edge costs taken from the json route (route.cost of the summary is the un-weighted cost, a different quantity)", "3.2"),
  "C03": (True, "runtime oracle: every returned route re-accumulated from generator tables with an SI unit table (distance, time incl. turn delays, per-edge cost, monotonicity, initials)",
-         "Every route returned by any algorithm on sampled networks/unit configurations/heading and delay tables is recomputed edge by edge from the generator's tables with independent SI factors and compared at 0.1 % (costs at 1e-9).",
+         "Every route returned by any algorithm on sampled networks/unit configurations/heading and delay tables is recomputed edge by edge from the generator's tables with independent SI factors and compared at 0.1 % (costs at 1e-9). One case in 40 goes through CompassApp::run with per-query state_features overrides (unit and initial value of distance / time): the response's per-edge result_state, its declared units and its traversal_summary are checked by the same oracle.",
          "SI table and independent turn classification in the harness; edge-oriented terminal edges may contribute nothing or their true traversal", "3.3"),
  "C04": (True, "runtime oracle: real frontier models built via their services; routes/trees compared with raw restriction inputs; Relax-after-FrontierReject hook invariant",
          "Runs searches under the real road-class, vehicle-restriction, turn-restriction, combined and edge-cut frontier models on sampled inputs; no route/tree edge may be forbidden by an independent evaluation of the raw inputs and no consecutive route edges may be a listed turn.",
@@ -23,8 +23,8 @@ CHECKS = {
          "reference BFS/Dijkstra in the harness; origin/destination edges drawn from the permitted set", "3.5"),
 
  "C06": (True, "history + reference-model monitor: batch responses as a multiset vs every query run alone, across parallelism/order/seeded delay injection at hook events; distinct completion orders recorded",
-         "Builds applications from generated TOML, runs every query alone (parallelism 1) and then the same batch under random parallelism overrides, permutations and seeded yields/sleeps injected at QueryStart/QueryEnd/BeforeWrite hook events; the multiset of (qid, error text, route, cost, final state) must equal the alone results, counts must equal the expansion product, run() must return Ok and load balancing must partition the queries.",
-         "reference = same application, query alone; schedule reach = native stress + delay injection (observed interleavings reported); thorough adds ThreadSanitizer and Miri layers", "3.6"),
+         "Builds applications from generated TOML, runs every query alone (parallelism 1) and then the same batch under random parallelism overrides, permutations and seeded yields/sleeps injected at QueryStart/QueryEnd/BeforeWrite hook events; the multiset of (qid, error text, route, cost, final state) must equal the alone results, counts must equal the expansion product, run() must return Ok and load balancing must partition the queries. An energy slice (30 % of the speed-table cases) shares a prediction cache between the queries; its reference is the same configuration without the cache.",
+         "reference = same application (cache-enabled cases: the same configuration without the cache), query alone; schedule reach = native stress + delay injection (observed interleavings reported); thorough adds ThreadSanitizer and Miri layers", "3.6"),
  "C07": (True, "runtime oracle: real CostModel / EdgeTraversal on sampled configurations and state pairs vs independent closed formula; live relaxations watched through hooks in the search monitors",
          "Calls the real cost model (traversal/access/estimate) and EdgeTraversal::forward/reverse_traversal on sampled weight/rate/surcharge/aggregation setups and finite state pairs incl. zero and negative deltas; positivity, the sum formula, linearity in the weights and zero-weight neutrality are asserted per call.",
          "closed formula written in the harness; surcharges weighted by their feature weight; magnitudes bounded (|state|<=1e6)", "3.7"),
@@ -37,7 +37,7 @@ CHECKS = {
          "trusts the SI factors written in the harness and f64 arithmetic; energy units only get identity/linearity/round-trip", "3.9"),
 
  "C10": (True, "runtime monitor over hook events (LoopTop/Pop/SearchEnd): limit sweeps per query vs unlimited reference run; one-sided timing checks for runtime limits",
-         "For sampled queries the unlimited run is compared with complete sweeps of the iteration and solution-size limits, random combined limits and runtime budgets (zero, and expiring mid-search with a sleeping traversal model): expansion counts, tree sizes, termination messages, identity of results, monotonicity and no work after termination are asserted from hook events.",
+         "For sampled queries the unlimited run is compared with complete sweeps of the iteration and solution-size limits, random combined limits and runtime budgets (zero, and expiring mid-search with a sleeping traversal model): expansion counts, tree sizes, termination messages, identity of results, monotonicity and no work after termination are asserted from hook events. Yen's algorithm is driven under every limit as well, and an application slice takes the limits from the [termination] section of the TOML and the verdicts from the responses (unlimited route or a 'terminated' error naming the limit).",
          "expansion = popped vertex; runtime checks one-sided (250 ms slack) so load cannot alarm", "3.10"),
  "C11": (True, "model-based runtime monitor: random operation histories on the real container / StateModel vs insertion-ordered reference, full read API after every step",
          "Drives the real CompactOrderedHashMap and StateModel through sampled construction/extension/insert/overwrite histories and named get/set/add sequences; an insertion-ordered Vec reference and slot-isolation assertions decide after every step.",
@@ -48,12 +48,12 @@ CHECKS = {
          "Worker subprocesses (6 GiB address-space cap) build applications over plugin/algorithm/traversal/output configurations and run empty, single and mutated batches (24 mutation classes); a panic, a process death, an exceeded step budget, an Err from run(), an unanswered query, a response without request, or an ill-formed query answered without error is a violation; untouched valid queries must be answered as when alone.",
          "worker stall >5 min is inconclusive, never a violation; 'must error' asserted only for unambiguous mutations", "3.12"),
  "C13": (True, "runtime oracle under logical loop budgets (KspOuter/KspInner hook events): count, optimality, validity, distinctness, similarity, accept-all comparison, reachability",
-         "Runs both k-shortest-path algorithms on sampled networks and configurations under logical step budgets; route count, first-route optimality, walk/loop/accumulation validity, pairwise distinctness and similarity, accept-all >= threshold counts, and error-vs-reachability are asserted per call.",
+         "Runs both k-shortest-path algorithms on sampled networks and configurations under logical step budgets; route count, first-route optimality, walk/loop/accumulation validity, pairwise distinctness and similarity, accept-all >= threshold counts, and error-vs-reachability are asserted per call. A quarter of the worlds charge turn delays (first-route optimality is not decided there, accumulation of every alternative is).",
          "budgets 4-8x the legitimate loop bounds; optimality only for admissible underlying searches", "3.13"),
 
 
  "C14": (True, "runtime oracle: real interpolated speed/grade models over the bundled random forests vs the underlying model evaluated at the grid points; generic interpolators vs multilinear functions and each other",
-         "Builds the real interpolated model over all four bundled models on sampled grids and queries it at interior, grid, boundary, +-ulp and outside points in all input units; values must lie within the surrounding underlying-model values, equal them at grid points, be continuous across borders and clamp outside. Generic 1/2/3/N-D interpolators must reproduce multilinear functions, agree with each other and reject outside points.",
+         "Builds the real interpolated model over all four bundled models on sampled grids, with the declared speed / grade / energy-rate units of the model file drawn at random, and queries it at interior, grid, boundary, +-ulp and outside points in all input units; values must lie within the surrounding underlying-model values, equal them at grid points, be continuous across borders and clamp outside. Generic 1/2/3/N-D interpolators must reproduce multilinear functions, agree with each other and reject outside points.",
          "grid axes from the repo's linspace; underlying smartcore model is ground truth", "3.14"),
  "C15": (True, "runtime oracle: generated CSV file sets loaded by the real Graph::from_files / CompassApp::try_from and read back through every accessor vs the generator's lists; per-edge tables checked behaviourally",
          "Writes sampled edge/vertex file sets (plain/gzip, column layouts, counts explicit/scanned), loads them through the real loaders and compares every accessor (edges, adjacency in both views at every degree, triplets, coordinates, bindings) with the generator's lists; speed/heading/road-class rows are checked through the models the application builds from them.",
